@@ -6,7 +6,7 @@ import ast
 from . import e2_formula as F
 from . import ode_spaces as O
 from .core import AnchorError, Unsupported
-from .e1_srcmodel import dotted, walk_no_nested, parent, ancestors
+from .e1_srcmodel import dotted, walk_no_nested, parent, ancestors, utext
 from .e2_eval import Evaluator, Unknown, is_unknown, need
 
 UNC, SE2, BASE = O.UNC, O.SE2, O.BASE
@@ -158,7 +158,7 @@ def _cached_damping_force(ctx, q, lp, cfg):
     ctx.check(ok, f"{tag}: the cache is refreshed with alpha @ v_part of the step just solved", newd[0] if newd else lp)
     if cfg["order"] == 1:
         # the add-on arm updates the cache whenever it updates V[:, i]
-        txt = [ast.unparse(s).replace(" ", "") for s in addon]
+        txt = [utext(s) for s in addon]
         upd_v = any(t.startswith("V[:,i]+=") or t.startswith("v[:,i]+=") for t in txt)
         upd_c = any(t == "dmpfrc1+=dmpfrc1_addon" for t in txt)
         ctx.check(upd_v and upd_c, f"{tag}: an add-on force that changes V[:, i] also updates the cached damping force", lp, txt)
@@ -167,7 +167,7 @@ def _cached_damping_force(ctx, q, lp, cfg):
 # ---------------------------------------------------------------------------
 # symbolic evaluation of one arm of one loop
 def _subscript_hook(node, ev):
-    t = ast.unparse(node).replace(" ", "")
+    t = utext(node)
     table = {
         "D[:,i-1]": D0, "d[:,i-1]": D0, "V[:,i-1]": V0, "v[:,i-1]": V0, "drb[:,i-1]": F.sym("drb0"), "vrb[:,i-1]": F.sym("vrb0"),
         "Force[kdof,i-1]": F0, "Force[:,i-1]": F0, "F1[kdof]": F1, "F0[kdof]": F0, "F1[rf]": F1RF, "F0[rb]": F0RB, "F1[rb]": F1RB,
@@ -212,7 +212,7 @@ def eval_generator_arm(ctx, fn, lp, cfg, which, pre_override=None):
             path_ifs[id(a)] = any(lp is y for x in a.body for y in ast.walk(x))
 
     def cond(test, ev):
-        t = ast.unparse(test).replace(" ", "")
+        t = utext(test)
         if t == "j<0":
             return which == "addon"
         if t in ("self.rfsize", "rfsize"):
@@ -294,7 +294,7 @@ def _batch_real_unc(ctx):
         env.update({"di": D0, "vi": V0, "fki": F0})
 
         def sub(node, ev):
-            t = ast.unparse(node).replace(" ", "")
+            t = utext(node)
             if t == "fk[:,i]":
                 return F1
             return NotImplemented
@@ -310,7 +310,7 @@ def _batch_real_unc(ctx):
             raise AnchorError("_solve_real_unc_inner_loop: loop")
         # order 0 reads the next force at the end of the body; evaluate the update statements only
         for st in loop.body:
-            if order == 0 and ast.unparse(st).replace(" ", "") == "fki=fk[:,i]":
+            if order == 0 and utext(st) == "fki=fk[:,i]":
                 continue
             ev.stmt(st)
         d1, _ = _store_value(ev, ("D",))
@@ -327,12 +327,12 @@ def _batch_cdforces(ctx):
         env.update({"di": D0, "vi": V0, "dmpfrc0": BO * V0})
 
         def sub(node, ev):
-            t = ast.unparse(node).replace(" ", "")
+            t = utext(node)
             return {"force[kdof,:-1]": F0, "force[kdof,1:]": F1, "ABF[:,i]": ev.env.get("ABF"), "ABFp[:,i]": ev.env.get("ABFp"),
                     "D[:,0]": D0, "V[:,0]": V0}.get(t, NotImplemented)
 
         def cond(test, ev, order=order):
-            t = ast.unparse(test).replace(" ", "")
+            t = utext(test)
             return {"nt==1": False, "self.order==1": order == 1}.get(t)
 
         ev = Evaluator(env=env, cond=cond, src=ctx.src, subscript=sub, call=_call_hook)
@@ -440,11 +440,11 @@ def r2_step_equals_batch(ctx):
             ctx.check(okd and okv, f"{tag}: d(i) = E_dd d + E_dv v + PQF[d half], v(i) = E_vd d + E_vv v + PQF[v half] from column i-1", sd or lp,
                       None if okd and okv else {"d": repr(d1), "v": repr(v1)})
         # halves: D <- PQF[ksize:], V <- PQF[:ksize] in both arms
-        txt = ast.unparse(lp).replace(" ", "")
+        txt = utext(lp)
         okh = ("PQF[ksize:]" in txt and "PQF[:ksize]" in txt)
         for st in ast.walk(lp):
             if isinstance(st, (ast.Assign, ast.AugAssign)):
-                t = ast.unparse(st).replace(" ", "")
+                t = utext(st)
                 if t.startswith(("D[:,i]", "d[:,i]")) and "PQF" in t:
                     okh = okh and "PQF[ksize:]" in t and "PQF[:ksize]" not in t
                 if t.startswith(("V[:,i]", "v[:,i]")) and "PQF" in t:
@@ -452,7 +452,7 @@ def r2_step_equals_batch(ctx):
         ctx.check(okh, f"_solve_se2_generator (order {cfg['order']}, rf {cfg['rf']}): displacement takes the d half (rows ksize:) and velocity the v half "
                        "(rows :ksize) of the [v; d] force integral", lp)
     ts = ctx.src.func(SE2, "SolveExp2.tsolve")
-    t = ast.unparse(ts).replace(" ", "")
+    t = utext(ts)
     ok = "D[:,i+1]=E_dd@d0+E_dv@v0+PQF[ksize:,i]" in t and "V[:,i+1]=E_vd@d0+E_vv@v0+PQF[:ksize,i]" in t \
         and "PQF=self.P@imf[:,:-1]+self.Q@imf[:,1:]" in t and "PQF=self.P@imf[:,:-1]" in t
     ctx.check(ok, "SolveExp2.tsolve: the batch step is d = E_dd d + E_dv v + PQF[d half], v = E_vd d + E_vv v + PQF[v half], PQF = P M^-1 f0 (+ Q M^-1 f1)", ts)
@@ -478,7 +478,7 @@ def _eval_arm(ctx, fn, lp, cfg, which, pre, extra_cond):
     cond0 = ev0.cond
 
     def cond(test, ev):
-        t = ast.unparse(test).replace(" ", "")
+        t = utext(test)
         if t in extra_cond:
             return extra_cond[t]
         return cond0(test, ev)
@@ -605,7 +605,7 @@ def r4_get_f2x(ctx):
         vpos, _ = _store_value(pos, ("V", "v"))
         for velo in (False, True):
             def cond(test, ev, velo=velo, cdf=cdf):
-                t = ast.unparse(test).replace(" ", "")
+                t = utext(test)
                 return {"self.ksize": True, "velo": velo, "self.cdforces": cdf}.get(t)
 
             def call(node, ev):
@@ -617,7 +617,7 @@ def r4_get_f2x(ctx):
                 return NotImplemented
 
             def sub(node, ev):
-                t = ast.unparse(node).replace(" ", "")
+                t = utext(node)
                 if t == "phi[:,kdof]":
                     return phik
                 return NotImplemented
@@ -635,18 +635,18 @@ def r4_get_f2x(ctx):
             ctx.check(ok, f"{tag}: flexibility = phi_k (d update / d f1) phi_k^T, the change a unit add-on force produces in the current step", fn,
                       None if ok else {"get_f2x": repr(flex), "from the generator": repr(want)})
     top = ctx.src.func(UNC, "SolveUnc.get_f2x")
-    t = ast.unparse(top).replace(" ", "")
+    t = utext(top)
     ok = "ifself.order==0:flex=0.0" in t.replace("\n", "")
     ctx.check(ok, "get_f2x: zero for zero-order hold (an add-on does not change the current step)", top)
     # SolveExp2.get_f2x halves
     fn = ctx.src.func(SE2, "SolveExp2.get_f2x")
-    t = ast.unparse(fn).replace(" ", "")
+    t = utext(fn)
     ok = "n=self.nonrfsz" in t and "ifvelo:flex=phik@Q[:n]@phik.Telse:flex=phik@Q[n:]@phik.T" in t.replace("\n", "") and "ifself.order==1:" in t
     ctx.check(ok, "SolveExp2.get_f2x: velocity uses the v half Q[:n], displacement the d half Q[n:] (same halves as the add-on arm), only for order 1", fn)
     ok = "Q=Q*invm" in t and "Q=la.lu_solve(self.invm,Q.T,trans=1,check_finite=False).T" in t
     ctx.check(ok, "SolveExp2.get_f2x: Q is post-multiplied by M^-1 exactly as in the generator", fn)
     rf = ctx.src.func(BASE, "_BaseODE._add_rf_flex")
-    t = ast.unparse(rf).replace(" ", "")
+    t = utext(rf)
     ok = "ifnotveloandself.rfsize:" in t and "flexrf=ikrf.ravel()[:,None]*phirf.T" in t and "flex=flex+phirf@flexrf" in t
     ctx.check(ok, "_add_rf_flex: the rf part contributes phi_rf K_rf^-1 phi_rf^T to displacement only", rf)
 
@@ -655,7 +655,7 @@ def r5_typestate(ctx):
     for rel, q in ((UNC, "SolveUnc.generator"), (SE2, "SolveExp2.generator")):
         fn = ctx.src.func(rel, q)
         body = fn.body
-        t = [ast.unparse(s).replace(" ", "") for s in body]
+        t = [utext(s) for s in body]
         refuse = [i for i, s in enumerate(body) if isinstance(s, ast.If) and "notself.slices" in ast.unparse(s.test).replace(" ", "")
                   and any(isinstance(x, ast.Raise) for x in s.body)]
         alloc = [i for i, x in enumerate(t) if "self._init_dva_part(" in x]
@@ -669,7 +669,7 @@ def r5_typestate(ctx):
         ok = bool(rets) and all(r == "(generator,d,v)" for r in rets)
         ctx.check(ok, f"{q}: returns (generator, d, v)", fn)
     fin = ctx.src.func(BASE, "_BaseODE.finalize")
-    t = [ast.unparse(s).replace(" ", "") for s in fin.body if not (isinstance(s, ast.Expr) and isinstance(s.value, ast.Constant))]
+    t = [utext(s) for s in fin.body if not (isinstance(s, ast.Expr) and isinstance(s.value, ast.Constant))]
     ok = t[:4] == ["d,v,a,f=(self._d,self._v,self._a,self._force)", "delself._d,self._v,self._a,self._force", "self._calc_acce_kdof(d,v,a,f)",
                    "sol=self._solution(d,v,a)"]
     ctx.check(ok, "finalize: takes the published arrays, forgets them, recovers acceleration from equilibrium with the force finally in effect, builds the solution", fin, t[:4])
@@ -685,7 +685,7 @@ def r5_typestate(ctx):
                           "SolveUnc._solve_complex_unc_generator", "SolveExp2._solve_se2_generator"}
     ctx.check(ok, "the stored force history `_force` is read only by the generator bodies and finalize", BASE + ":1", sorted(set(readers)))
     part = ctx.src.func(BASE, "_BaseODE._init_dva_part")
-    t = ast.unparse(part).replace(" ", "")
+    t = utext(part)
     ok = "f=np.copy(a)" in t and "f[:,0]=F0" in t and "returnd,v,a,f" in t.replace("(", "").replace(")", "")
     ctx.check(ok, "_init_dva_part: the force history starts as zeros with column 0 = F0", part)
 
